@@ -385,13 +385,17 @@ class TraceTarget:
     get_density_matrix(S) for EVERY sorted non-empty subset S of the n sites, all run from the
     real source on free tensor symbols; obligation: result == SPEC(S)."""
 
-    def __init__(self, n, evolve=False):
-        self.n, self.evolve = n, evolve
-        self.name = 'trace/density-matrices[n=%d%s]' % (n, ',after site gate + process tensors' if evolve else '')
+    def __init__(self, n, evolve=False, query_first=False, prop=None):
+        self.n, self.evolve, self.query_first = n, evolve, query_first
+        self.name = 'trace/density-matrices[n=%d%s%s]' % (n, ',after site gate + process tensors' if evolve else '',
+                                                        ',density matrix queried before the evolution' if query_first else '')
         self.qualname = 'backends.pt_tebd_backend.PtTebdBackend.get_density_matrix'
-        self.prop = PROP
+        self.prop = prop or PROP
 
     def replay(self, ob):
+        if self.query_first:
+            return {'func': 'tebd_query_between_computes', 'inputs': {'obligation': ob['name']}} if self.prop == 'C14' else \
+                {'func': 'query_between_steps', 'inputs': {'obligation': ob['name']}}
         return {'func': 'partial_trace_consistency', 'inputs': {'obligation': ob['name']}}
 
     def run(self, timeout_ms, tier):
@@ -477,6 +481,10 @@ class TraceTarget:
             try:
                 be = fresh_backend(ip)
                 P = pts(ip)
+                if self.query_first:
+                    # an observer in between (PtTebd.get_current_density_matrix): traces computed and left behind
+                    ip.call(repo.resolve(q + '.compute_traces'), [be, 2, P], {})
+                    ip.call(fref, [be, [0]], {})
                 if self.evolve:
                     gate_ = Obj(repo.resolve('mps_mpo.SiteGate'), {'sites': [0], 'tensors': (TArr.sym('M', 2),)})
                     ip.call(repo.resolve(q + '.apply_site_gate'), [be, gate_], {})
@@ -530,6 +538,7 @@ def targets(tier='quick'):
     for n in (2, 3, 4, 5, 6):
         T.append(TraceTarget(n))
     T.append(TraceTarget(3, evolve=True))
+    T.append(TraceTarget(3, evolve=True, query_first=True))
     return T
 
 
